@@ -72,6 +72,9 @@ def run_shard(spec, acc):
         ids = ((prio << 26) | (dp << 24) | (pf << 16) | (ps << 8) | sa
                for dp in range(4) for pf in range(256) for ps, sa in pairs)
         n = check_ids(ids, acc)
+        if prio == 0:
+            # every 29-bit number the code under test mentions literally, as an identifier
+            n += check_ids(iter(gen.harvested_in(0, (1 << 29) - 1)), acc)
         acc.case(("sweep_quick", prio), n=n)
         # every identifier is distinct; count them as distinct non-trivial without hashing each one
         for dp in range(4):
